@@ -205,6 +205,14 @@ def run(ctx) -> None:
     ctx.section("automaton", _automaton, ctx, tags_all, tags_core)
     ctx.section("promote", _promote, ctx, tags_all)
     ctx.section("infer-kind", _infer_kind, ctx, tags_all)
+    ctx.rule("d.result-sites", "results of arithmetic, joins, aggregate, window, broadcasting and CSV parsing are constructed "
+                               "with NO dtype or with infer_dtype(<the very data stored>): they are typed by the same rule", 40)
+    ctx.section("result-sites", _result_sites, ctx)
+    ctx.rule("e.assignment-promotion", "promotion on in-place assignment (the running target of Vector.__setitem__) never "
+                                       "narrows and never drops nullability, for every (dtype, target, value type) cell", 200)
+    ctx.rule("e.assignment-applied", "the promoted target is what the vector ends up with", 20)
+    from . import c03
+    ctx.section("assignment-promotion", c03._setitem, ctx, "e.assignment-promotion", "e.assignment-applied")
     ctx.not_decided.append("nothing in the statement is value-dependent; decided up to the evaluator's semantics of type tests")
     ctx.info("C04's clause 'results of arithmetic, joins, aggregates and CSV parsing are typed by the same rule' is decided "
              "with the construction-site typing discipline of C03 (sites must be ABSENT or INFER(same data))")
@@ -358,6 +366,54 @@ def _infer_kind(ctx, tags_all) -> None:
                message=f"infer_kind of a {t} value {st}s {r!r}, expected {want!r}")
 
 
+RESULT_FUNCS = ("vector.Vector._elementwise_operation", "vector.Vector.__radd__", "vector.Vector._unary_operation",
+                "vector.MethodProxy.__call__", "vector.Vector.__getattr__", "table.Table.inner_join", "table.Table.join",
+                "table.Table.full_join", "table.Table.aggregate", "table.Table.window", "csv._read_csv_from_file",
+                "vector._Date.__add__", "vector.Vector.unique", "vector.Vector.pluck", "table.Table.sort_by")
+
+
+def _result_sites(ctx) -> None:
+    from ..sites import all_sites, comp_of, is_never_none_expr, Resolver
+    from .c03 import _same_expr
+    prog = ctx.prog
+    wanted = set(RESULT_FUNCS)
+    n = 0
+    for s in all_sites(prog):
+        q = s.func.qualname
+        top = q
+        while prog.functions[top].parent:
+            top = prog.functions[top].parent
+        in_wrappers = s.func.cls in ("_String", "_Date") and s.func.name not in ("__init__", "_elementwise_compare")
+        if top not in wanted and not in_wrappers:
+            continue
+        if s.kind not in ("Vector", "cls"):
+            continue
+        n += 1
+        dt = s.dtype
+        ok, why = True, "no dtype: inferred from the stored values"
+        if dt is not None and not (isinstance(dt, ast.Constant) and dt.value is None):
+            res = Resolver(prog, s.func)
+            dts = res.resolve(dt) if isinstance(dt, ast.Name) else [dt]
+            for d in dts:
+                if isinstance(d, str):
+                    ok, why = False, "dtype comes from a parameter"
+                elif isinstance(d, ast.Call) and short(d.func) == "infer_dtype" and d.args and _same_expr(d.args[0], s.data):
+                    why = "infer_dtype over the stored data"
+                elif short(d) == "DataType(object)":
+                    datas = res.resolve(s.data) if isinstance(s.data, ast.Name) else [s.data]
+                    if all(not isinstance(x, str) and comp_of(x) is not None and is_never_none_expr(comp_of(x).elt) for x in datas):
+                        why = "object fallback over tuple displays"
+                    else:
+                        ok, why = False, "constant object dtype over data that may hold None"
+                else:
+                    ok, why = False, f"explicit dtype `{short(d, 50)}` instead of inference over the result values"
+        ctx.ob("d.result-sites", s.func, f"site:{s.call.lineno - s.func.lineno}:{short(s.data, 24) if s.data is not None else '-'}",
+               ok, why, s.call,
+               message=f"{q}: result constructed as `{short(s.call, 90)}` - {why}; the statement requires results to be typed by "
+                       f"the inference rule applied to their values")
+    ctx.extra["result_sites"] = n
+
+
 _TY = "typing"
 MUTANTS = [
     dict(id="ladder-int-before-float", module=_TY,
@@ -390,6 +446,18 @@ MUTANTS = [
          old="    if isinstance(value, bool):\n        return bool\n    if isinstance(value, int):\n        return int",
          new="    if isinstance(value, int):\n        return int\n    if isinstance(value, bool):\n        return bool",
          rules=["c.infer-kind"]),
+    dict(id="join-right-cols-typed-from-source", module="table", count=1,
+         old="		for j, orig_col in enumerate(right_cols):\n			col_data = result_data[n_left_cols + j]\n			result_cols.append(Vector(col_data, name=orig_col._name))",
+         new="		for j, orig_col in enumerate(right_cols):\n			col_data = result_data[n_left_cols + j]\n			result_cols.append(Vector(col_data, dtype=orig_col._dtype, name=orig_col._name))",
+         rules=["d.result-sites"]),
+    dict(id="csv-columns-typed-str", module="csv",
+         old="        columns.append(Vector(column_data, name=header[col_idx]))",
+         new="        columns.append(Vector(column_data, dtype=str if all(isinstance(v, str) for v in column_data) else None, name=header[col_idx]))",
+         rules=["d.result-sites"]),
+    dict(id="aggregate-sum-typed-from-source", module="table",
+         old="			name = uniquify(make_agg_name(col, suffix))\n			result_cols.append(Vector(out, name=name))",
+         new="			name = uniquify(make_agg_name(col, suffix))\n			result_cols.append(Vector(out, dtype=col._dtype, name=name))",
+         rules=["d.result-sites"]),
     dict(id="twin-ladder-rewrite", module=_TY, twin=True,
          old="            if self.kind is complex or vtype is complex:\n                new_kind = complex\n            elif self.kind is float or vtype is float:\n                new_kind = float\n            elif self.kind is int or vtype is int:\n                new_kind = int\n            else:\n                new_kind = bool",
          new="            if complex in (self.kind, vtype):\n                new_kind = complex\n            elif float in (self.kind, vtype):\n                new_kind = float\n            elif int in (self.kind, vtype):\n                new_kind = int\n            else:\n                new_kind = bool"),
